@@ -226,5 +226,87 @@ theorem corner_contained (solver : Solver α) (q : QEF n α) (region : Region n 
   · simp [hu, h2, h3]
   · simp [hu, h1, h2]
 
+/-! ### when is a corner error comparable?  ("no NaN, no overflow") -/
+
+/-- A notion of *finite* scalar that the arithmetic preserves and that compares `< +inf`.
+    For IEEE doubles this is `isfinite` **as long as no operation overflows**; NaN and ±inf
+    are not finite. -/
+structure FinArith (α : Type) [Add α] [Sub α] [Mul α] [OfNat α 0] [OfNat α 2] [QOrd α] where
+  fin : α → Prop
+  add : ∀ {a b}, fin a → fin b → fin (a + b)
+  sub : ∀ {a b}, fin a → fin b → fin (a - b)
+  mul : ∀ {a b}, fin a → fin b → fin (a * b)
+  zero : fin 0
+  two : fin 2
+  lt_inf : ∀ {a}, fin a → QOrd.lt a QOrd.inf = true
+
+variable (F : FinArith α)
+
+theorem FinArith.sumFin : ∀ (m : Nat) (f : Fin m → α), (∀ i, F.fin (f i)) → F.fin (sumFin m f)
+  | 0, _, _ => F.zero
+  | m + 1, _, h => F.add (FinArith.sumFin m _ (fun i => h i.castSucc)) (h (Fin.last m))
+
+/-- all entries of the three matrices are finite -/
+def QEF.Finite (q : QEF n α) : Prop :=
+  ∀ i j, F.fin (q.AtA i j) ∧ F.fin (q.AtBp i j) ∧ F.fin (q.BptBp i j)
+
+theorem FinArith.errorV (q : QEF n α) (hq : q.Finite F) (v : Fin (n + 1) → α) (hv : ∀ i, F.fin (v i)) :
+    F.fin (q.errorV v) := by
+  unfold QEF.errorV QEF.AtB QEF.BtB
+  refine F.add (F.sub ?_ (F.mul F.two ?_)) ?_
+  · exact F.sumFin _ _ (fun j => F.mul (F.sumFin _ _ (fun i => F.mul (hv i) (hq i j).1)) (hv j))
+  · exact F.sumFin _ _ (fun i => F.mul (hv i) (F.sumFin _ _ (fun j => (hq i j).2.1)))
+  · exact F.sumFin _ _ (fun j => F.sumFin _ _ (fun i => (hq i j).2.2))
+
+theorem FinArith.snoc {x : Fin n → α} {w : α} (hx : ∀ i, F.fin (x i)) (hw : F.fin w) :
+    ∀ i, F.fin (snoc x w i) := by
+  intro i
+  unfold QEF.snoc
+  by_cases h : i.val < n
+  · simp [h, hx]
+  · simp [h, hw]
+
+/-- **A corner candidate's error compares `< +inf`** when the matrices and the region bounds are
+    finite and the inner solver's value for that corner's 1×1 system is finite. -/
+theorem corner_error_lt_inf (solver : Solver α) (q : QEF n α) (region : Region n α)
+    (tpos : Fin n → α) (tval : α) (nb : Nat) (hdim : nbDim n nb = 0)
+    (hq : q.Finite F) (hr : ∀ i, F.fin (region.lower i) ∧ F.fin (region.upper i))
+    (hs : F.fin ((solver (freeAxes n nb).length (q.reducedAtA nb) (q.reducedAtB region nb)
+            (reducedTarget nb tpos tval)).value (Fin.last _))) :
+    QOrd.lt (q.solveConstrained solver region nb tpos tval).error QOrd.inf = true := by
+  apply F.lt_inf
+  rw [solveConstrained_error]
+  unfold QEF.error
+  apply F.errorV q hq
+  apply F.snoc
+  · intro i
+    rw [(solveConstrained_fixed solver q region nb tpos tval i (nbFixed_of_dim_zero nb hdim i)).1]
+    unfold Region.face
+    by_cases hu : nbUpper nb i.val = true
+    · simp [hu, (hr i).2]
+    · simp [hu, (hr i).1]
+  · exact hs
+
 end cand
+
+/-- `Ext`'s finite values form a `FinArith` (its arithmetic never overflows) -/
+def extFinArith : FinArith Ext where
+  fin a := ∃ x, a = .fin x
+  add := by rintro _ _ ⟨x, rfl⟩ ⟨y, rfl⟩; exact ⟨x + y, rfl⟩
+  sub := by rintro _ _ ⟨x, rfl⟩ ⟨y, rfl⟩; exact ⟨x - y, rfl⟩
+  mul := by rintro _ _ ⟨x, rfl⟩ ⟨y, rfl⟩; exact ⟨x * y, rfl⟩
+  zero := ⟨0, rfl⟩
+  two := ⟨2, rfl⟩
+  lt_inf := by rintro _ ⟨x, rfl⟩; rfl
+
+def Ext.isFin : Ext → Bool
+  | .fin _ => true
+  | _ => false
+
+theorem extFin_of_isFin {a : Ext} (h : a.isFin = true) : extFinArith.fin a := by
+  cases a with
+  | fin x => exact ⟨x, rfl⟩
+  | pinf => simp [Ext.isFin] at h
+  | nan => simp [Ext.isFin] at h
+
 end Libfive.QEF
